@@ -5,5 +5,6 @@ CONSTANTS
   MaxDepth = 2
   Ordered = FALSE
   Exits = TRUE
+  Hard = FALSE
 INVARIANTS RetagAlwaysRejected
 CHECK_DEADLOCK FALSE
